@@ -9,6 +9,7 @@ import (
 	"sort"
 	"strings"
 
+	"github.com/indexsupply/shovel/dig"
 	"github.com/indexsupply/shovel/shovel/config"
 	"github.com/indexsupply/shovel/shovel/glf"
 
@@ -38,7 +39,18 @@ type spec struct {
 	Shape   int      `json:"shape"`             // chain shape
 	VOff    int      `json:"voff,omitempty"`    // rotation of the value cycles
 	ArrLens []int    `json:"arrlens,omitempty"` // element counts of dynamic arrays, cycled over the logs
+	Null    *nullAns `json:"null,omitempty"`    // environment: during the FIRST step the node answers "result": null for these calls
 }
+
+// nullAns describes a transient inconsistency of the source (a lagging backend behind one URL): during the
+// first step, every call of the given class that concerns the target block is answered {"result": null}
+// although the other calls of the same load are served; later steps are answered faithfully (good retry).
+type nullAns struct {
+	Method string `json:"m"`      // blocks | headers | receipts | logs | logs-head | traces
+	Target string `json:"target"` // first | last | all (block of the first step's range)
+}
+
+var nullMethods = []string{"blocks", "headers", "receipts", "logs", "logs-head", "traces"}
 
 func (s spec) String() string {
 	var sb strings.Builder
@@ -67,6 +79,9 @@ func (s spec) String() string {
 	fmt.Fprintf(&sb, " shape=%d voff=%d", s.Shape, s.VOff)
 	if len(s.ArrLens) > 0 {
 		fmt.Fprintf(&sb, " arrlens=%v", s.ArrLens)
+	}
+	if s.Null != nil {
+		fmt.Fprintf(&sb, " first-step answers null for %s of block(s) %s", s.Null.Method, s.Null.Target)
 	}
 	return sb.String()
 }
@@ -256,6 +271,7 @@ type prep struct {
 	conf  string
 	snap  *simpg.Snapshot
 	chain *simeth.Chain
+	batch int
 	plan  string   // the fetch plan shovel's planner derives for the requested names (key naming and evidence only)
 	names []string // requested names = declared fields + automatically required fields
 }
@@ -269,7 +285,7 @@ func prepare(s spec) (*prep, error) {
 	if s.Shape == 1 {
 		batch = 2 // two steps: 2 blocks, then 1
 	}
-	p := &prep{spec: s, decl: d}
+	p := &prep{spec: s, decl: d, batch: batch}
 	p.conf = world.ConfJSON([]world.Source{{Name: "src1", ChainID: 7, URL: "http://node1", Batch: batch, Conc: 1}}, []*world.Decl{d})
 	conf, err := world.ParseConf(p.conf)
 	if err != nil {
@@ -291,7 +307,14 @@ func prepare(s spec) (*prep, error) {
 	for _, bd := range conf.Integrations[0].Block {
 		p.names = append(p.names, bd.Name)
 	}
-	p.plan = glf.New(p.names, nil, nil).String()
+	// the plan the integration really asks for (labels and evidence only, never the verdict)
+	ig := conf.Integrations[0]
+	if dest, err := dig.New(ig.Name, ig.Event, ig.Block, ig.Table, ig.Notification, ig.FilterAGG); err == nil {
+		f := dest.Filter()
+		p.plan = f.String()
+	} else {
+		p.plan = glf.New(p.names, nil, nil).String()
+	}
 	p.chain = mkChain(s, d)
 	return p, nil
 }
@@ -313,6 +336,52 @@ type execOut struct {
 	nwant    int
 	cells    int
 	finds    []finding
+	nulled   int  // calls answered null by the environment
+	rejected bool // the step that met the null answers failed (and was retried)
+	badStep  bool // a per-step oracle failed
+}
+
+// callClass names the fetch method a JSON-RPC call belongs to ("" = position bookkeeping: latest / hash).
+func callClass(c simeth.Call) string {
+	id, _ := c.ID.(string)
+	switch c.Method {
+	case "eth_getLogs":
+		return "logs"
+	case "eth_getBlockReceipts":
+		return "receipts"
+	case "trace_block":
+		return "traces"
+	case "eth_getBlockByNumber":
+		full := false
+		if len(c.Params) > 1 {
+			full, _ = c.Params[1].(bool)
+		}
+		switch {
+		case strings.HasPrefix(id, "headers-"):
+			return "headers"
+		case strings.HasPrefix(id, "blocks-") && full:
+			return "blocks"
+		case strings.HasPrefix(id, "blocks-"):
+			return "logs-head" // the header of the range's last block requested together with eth_getLogs
+		}
+	}
+	return ""
+}
+
+// callBlock returns the block number a per-block call concerns.
+func callBlock(c simeth.Call) (uint64, bool) {
+	if len(c.Params) == 0 {
+		return 0, false
+	}
+	h, ok := c.Params[0].(string)
+	if !ok || !strings.HasPrefix(h, "0x") {
+		return 0, false
+	}
+	var n uint64
+	if _, err := fmt.Sscanf(h[2:], "%x", &n); err != nil {
+		return 0, false
+	}
+	return n, true
 }
 
 // fetchMethods classifies the RPC exchanges of a run into the fetch methods used.
@@ -320,25 +389,8 @@ func fetchMethods(exs []*simeth.Exchange) []string {
 	set := map[string]bool{}
 	for _, ex := range exs {
 		for _, c := range ex.Calls {
-			id, _ := c.ID.(string)
-			switch c.Method {
-			case "eth_getLogs":
-				set["logs"] = true
-			case "eth_getBlockReceipts":
-				set["receipts"] = true
-			case "trace_block":
-				set["traces"] = true
-			case "eth_getBlockByNumber":
-				full := false
-				if len(c.Params) > 1 {
-					full, _ = c.Params[1].(bool)
-				}
-				switch {
-				case strings.HasPrefix(id, "headers-"):
-					set["headers"] = true
-				case strings.HasPrefix(id, "blocks-") && full:
-					set["blocks"] = true
-				}
+			if k := callClass(c); k != "" && k != "logs-head" {
+				set[k] = true
 			}
 		}
 	}
@@ -404,6 +456,9 @@ func notFetchedKey(field string, methods []string, plan string) string {
 				took = m
 			}
 		}
+		if took == "" {
+			took = "none"
+		}
 		return "plan-drops-method:" + took + "+" + planned[0]
 	}
 	return "field-not-fetched:" + field
@@ -429,24 +484,98 @@ func runOne(p *prep, ch *explore.Run, trace, judge bool) (out execOut) {
 		}
 		task := tasks[0]
 		cols = w.TableCols("t1")
+		step := 0
+		if na := p.spec.Null; na != nil {
+			lo, hi := uint64(1), uint64(p.batch)
+			if hi > head {
+				hi = head
+			}
+			w.OnExchange = func(ex *simeth.Exchange) {
+				if step != 0 {
+					return
+				}
+				var hit []int
+				for i, c := range ex.Calls {
+					if callClass(c) != na.Method {
+						continue
+					}
+					if n, ok := callBlock(c); ok && c.Method != "eth_getLogs" && na.Method != "logs-head" {
+						if (na.Target == "first" && n != lo) || (na.Target == "last" && n != hi) {
+							continue
+						}
+					}
+					hit = append(hit, i)
+				}
+				if len(hit) == 0 {
+					return
+				}
+				out.nulled += len(hit)
+				batch := ex.Batch
+				ex.Mutate = func(tree any) any {
+					if !batch {
+						if m, ok := tree.(map[string]any); ok {
+							m["result"] = nil
+						}
+						return tree
+					}
+					if a, ok := tree.([]any); ok {
+						for _, i := range hit {
+							if m, ok := a[i].(map[string]any); ok {
+								m["result"] = nil
+							}
+						}
+					}
+					return tree
+				}
+			}
+		}
 		func() { // the steps run on the main controlled thread: a strictly sequential execution
-			for s := 0; s < 6; s++ {
+			for ; step < 8; step++ {
 				if w.V.Closing() {
 					return
 				}
+				before, hadBefore := w.Latest("src1", "ig1")
+				dumpBefore := world.RenderDump(w.PG.Dump("t1"), cols)
 				o, err := task.Step()
 				if w.V.Closing() {
 					return
 				}
 				out.steps = append(out.steps, o)
-				if o != "ok" {
-					if o != "nothing" {
-						out.stepErr = fmt.Sprint(err)
-					}
+				if len(w.V.Panics) > 0 || o == "panic" {
+					out.stepErr = fmt.Sprint(err)
 					return
 				}
-				if len(w.V.Panics) > 0 {
+				cur, has := w.Latest("src1", "ig1")
+				switch o {
+				case "nothing":
 					return
+				case "ok":
+					// per-step oracle: whatever a successful step wrote is the declared projection up to the new position
+					if judge && has && cur.Num <= head {
+						want := d.Expect(p.chain, "src1", 7, 1, cur.Num, nil)
+						if fs := compare(p, cols, w.PG.Dump("t1"), want, fetchMethods(w.Net.Exchanges())); len(fs) > 0 {
+							for _, f := range fs {
+								f.Detail = fmt.Sprintf("after step %d (position %d):\n%s", step+1, cur.Num, f.Detail)
+								out.finds = append(out.finds, f)
+							}
+							out.badStep = true
+							return
+						}
+					}
+				default:
+					out.stepErr = fmt.Sprint(err)
+					// a failed step must leave the committed state alone
+					dumpAfter := world.RenderDump(w.PG.Dump("t1"), cols)
+					if has != hadBefore || (has && cur.Num != before.Num) || strings.Join(dumpAfter, "\n") != strings.Join(dumpBefore, "\n") {
+						out.finds = append(out.finds, finding{"state-changed-by-failed-step", "failed-step-changed-state",
+							fmt.Sprintf("step %d ended with %q (%v) but the committed state changed (position %d -> %d)\n%s", step+1, o, err, before.Num, cur.Num, world.DiffSorted(dumpAfter, dumpBefore))})
+						out.badStep = true
+						return
+					}
+					if !(p.spec.Null != nil && step == 0 && o == "error") {
+						return // only the step that met the inconsistent answers may fail; it is retried
+					}
+					out.rejected = true
 				}
 			}
 		}()
@@ -489,6 +618,9 @@ func runOne(p *prep, ch *explore.Run, trace, judge bool) (out execOut) {
 			}
 		}
 		out.finds = append(out.finds, finding{"panic", key, "the row builder panicked:\n" + det})
+		return out
+	case out.badStep:
+		out.outcome = "bad-step"
 		return out
 	case w.V.Deadlock:
 		out.outcome = "deadlock"
@@ -866,12 +998,29 @@ func (r *runner) exec(c *fw.Ctx, s spec, replay bool) {
 			}
 			return true
 		}
+		if s.Null != nil {
+			if out.nulled == 0 {
+				// the selection never issues a call of that class: the run equals the fault-free case, nothing new was evaluated
+				c.Eval(false)
+				c.Outcome("null-answer:not-applicable")
+				return !c.Expired()
+			}
+			for i := range out.finds {
+				out.finds[i].Key = "null-answer:" + s.Null.Method + ":" + out.finds[i].Key
+			}
+			c.Count("null_answers_injected", int64(out.nulled))
+		}
 		c.Eval(out.nwant > 0)
 		c.Res.Traces++
-		if len(out.finds) == 0 {
-			c.Outcome("ok:" + p.decl.Kind() + ":plan=" + p.plan)
-		} else {
+		switch {
+		case len(out.finds) > 0:
 			c.Outcome("VIOLATION:" + out.finds[0].Class)
+		case s.Null != nil && out.rejected:
+			c.Outcome("null-answer:" + s.Null.Method + ":step-failed-nothing-written-retry-ok")
+		case s.Null != nil:
+			c.Outcome("null-answer:" + s.Null.Method + ":step-succeeded-rows-correct")
+		default:
+			c.Outcome("ok:" + p.decl.Kind() + ":plan=" + p.plan)
 		}
 		for i, in := range s.Inputs {
 			if in.Ix && in.Sel && unselectedIndexedBefore(s, i) {
